@@ -210,11 +210,16 @@ func vC17Run(s *vC17Scenario) (ev vC10Ev) {
 	func() {
 		defer func() {
 			if r := recover(); r != nil {
+				vC10OnlyCodecPanics(r) // a panic of this driver or of its stubs is infrastructure trouble, not an observation
 				ev["kind"], ev["detail"] = "panic", fmt.Sprint(r)
 			}
 		}()
 		text, err = cp.Copy()
 		if err != nil {
+			if strings.Contains(err.Error(), "verif:") {
+				// the copier reached a stub this driver does not implement: nothing can be said about the property
+				panic("verif: copier used an unimplemented stub: " + err.Error())
+			}
 			ev["kind"], ev["detail"] = "error", err.Error()
 		}
 	}()
